@@ -20,7 +20,7 @@ sends the chunk and retries the same item (the item iterator is not advanced bef
 the item read, so a payload that did not fit is retried in the next chunk; (e) every IM buffer a report is built in is resized to a constant
 not above MAX_EXCHANGE_TX_BUF_SIZE (a chunk that one exchange message cannot carry is never delivered).
 """
-CLAUSES = ['a: trailer byte bound <= reserve', 'b: only the last chunk ends the interaction', 'c: rewind on overflow, retry the same item', 'd: list index discipline', 'e: report buffers sized to one exchange message']
+CLAUSES = ['a: trailer byte bound <= reserve', 'b: only the last chunk ends the interaction', 'c: rewind on overflow, retry the same item; the event scan stops at the first event that does not fit', 'd: list index discipline', 'e: report buffers sized to one exchange message']
 NOT_DECIDED = ['concatenation of chunks equals the one-shot expansion', 'element boundaries of handler-produced lists', 'size arithmetic for arbitrary values']
 MIN_OBLIGATIONS = {'q': 20, 'd': 20, 'r': 20}
 
